@@ -72,3 +72,17 @@ fn c00_setup_probe() {
     let x: u8 = kani::any();
     assert!(x as u16 <= 255);
 }
+
+// vacuity twin (thorough tier): same path as the shapes above with a deliberately false final assertion that MUST fail
+#[kani::proof]
+#[kani::unwind(6)]
+#[kani::stub(std::collections::VecDeque::pop_front, pop_front_forget)]
+fn c20tx_fs_twin() {
+    let mut store = FrameStore::new(1);
+    store.push(ev(kani::any()));
+    store.push(ev(kani::any()));
+    let got = store.get_by_seq(kani::any());
+    kani::cover!(got.is_some(), "lookup hit");
+    core::mem::forget(store);
+    assert!(false, "vacuity-witness");
+}
